@@ -1,0 +1,13 @@
+//go:build verif
+
+package soymsg
+
+import "github.com/robfig/soy/ast"
+
+// Exports of unexported functions for the verification harness.
+
+func VerifFingerprint(b []byte) uint64               { return fingerprint(b) }
+func VerifHash32(b []byte, c uint32) uint32          { return hash32(b, 0, len(b), c) }
+func VerifCalcID(n *ast.MsgNode) uint64              { return calcID(n) }
+func VerifToUpperUnderscore(ident string) string     { return toUpperUnderscore(ident) }
+func VerifGenBaseName(n ast.Node, def string) string { return genBasePlaceholderName(n, def) }
